@@ -23,9 +23,121 @@ def consts_used(f):
     return out
 
 
+def _range_of(f, l):
+    """(start, end) of the Range<usize> aggregate held in local `l` (constant bounds), else None"""
+    for b, i, st in f.stmts():
+        if st["k"] == "a" and st["lhs"] == {"l": l} and st["rv"]["k"] == "agg" and "Range" in str(st["rv"].get("adt", "") or st["rv"].get("def", "") or f.locals[l]):
+            ops = st["rv"]["ops"]
+            vals = []
+            for o in ops:
+                m = re.match(r"^(?:const )?(\d+)_usize$", str(o.get("v"))) if o["k"] == "const" else None
+                vals.append(int(m.group(1)) if m else None)
+            if len(vals) == 2 and None not in vals:
+                return tuple(vals)
+    return None
+
+
+def _const_names(f, l):
+    cs = copy_sources(f, l)
+    if cs and all(x[0] == "const" for x in cs):
+        return {str(x[1]).rsplit("::", 1)[-1] for x in cs}
+    return None
+
+
+def _sub_range(f, l, is_array):
+    """local `l` is (a reborrow of) `array[start..end]`: returns (start, end)"""
+    seen = set()
+    while l is not None and l not in seen:
+        seen.add(l)
+        dc = def_call(f, l)
+        if dc is not None:
+            t = dc[1]
+            if call_matches(t, r"ops::index::(Index::index|IndexMut::index_mut)$") and is_array(op_base(t["args"][0])):
+                return _range_of(f, op_base(t["args"][1]))
+            return None
+        nxt = None
+        for b, i, st in f.stmts():
+            if st["k"] == "a" and st["lhs"] == {"l": l}:
+                rv = st["rv"]
+                if rv["k"] == "ref" and all(e[0] == "deref" for e in rv["p"].get("p", [])):
+                    nxt = rv["p"]["l"]
+                elif rv["k"] in ("use", "cast") and rv["o"]["k"] in ("copy", "move") and all(e[0] == "deref" for e in rv["o"]["p"].get("p", [])):
+                    nxt = rv["o"]["p"]["l"]
+        l = nxt
+    return None
+
+
+def _idx_const(f, idx_local):
+    for b, i, st in f.stmts():
+        if st["k"] == "a" and st["lhs"] == {"l": idx_local} and st["rv"]["k"] == "use" and st["rv"]["o"]["k"] == "const":
+            m = re.match(r"^(?:const )?(\d+)_usize$", str(st["rv"]["o"].get("v")))
+            if m:
+                return int(m.group(1))
+    return None
+
+
+def written_prefix(f):
+    """generate(): {(start, end): const names} written into the [u8; 16] that becomes the address"""
+    arrays = {l for l in range(len(f.locals)) if str(f.locals[l]) == "[u8; 16]"}
+    is_array = lambda l: l is not None and (l in arrays or (bool(copy_sources(f, l, stop=arrays)) and all(x[0] == "place" and x[1] in arrays and not x[2] for x in copy_sources(f, l, stop=arrays))))
+    out = {}
+    other = []
+    for b, i, st in f.stmts():
+        if st["k"] == "a" and st["lhs"]["l"] in arrays and st["lhs"].get("p"):
+            pr = st["lhs"]["p"]
+            if len(pr) == 1 and pr[0][0] == "idx" and st["rv"]["k"] == "use" and st["rv"]["o"]["k"] == "const":
+                k = _idx_const(f, pr[0][1])
+                if k is not None:
+                    out[(k, k + 1)] = {str(st["rv"]["o"].get("def") or st["rv"]["o"].get("v")).rsplit("::", 1)[-1]}
+                    continue
+            other.append(site(f, b))
+    for b, t in f.calls():
+        if call_matches(t, r"copy_from_slice$|clone_from_slice$"):
+            r = _sub_range(f, op_base(t["args"][0]), is_array)
+            c = _const_names(f, op_base(t["args"][1]))
+            if r is not None and c is not None:
+                out[r] = c
+            elif r is not None or is_array(op_base(t["args"][0])):
+                other.append(site(f, b))
+    return out, other
+
+
+def checked_prefix(f, oks):
+    """try_from (inlined view): {(start, end): const names} compared for equality with the
+    address octets, each comparison being required (true edge) by every Ok return"""
+    oct_calls = find_calls(f, regex=r"Ipv6Addr::octets$")
+    arrays = {t["dest"]["l"] for b, t in oct_calls}
+    is_array = lambda l: l is not None and bool(copy_sources(f, l)) and all(x[0] == "call" and x[1].endswith("Ipv6Addr::octets") and not x[2] for x in copy_sources(f, l))
+    out = {}
+    for cb, st, ts in cmp_tests(f, ops=("Eq",)):
+        if not (oks and all(requires(f, b, ts) for b in oks)):
+            continue
+        for x, y in ((st["rv"]["a"], st["rv"]["b"]), (st["rv"]["b"], st["rv"]["a"])):
+            if y["k"] != "const" or op_base(x) is None:
+                continue
+            # x = octets[k]
+            for b2, i2, s2 in f.stmts():
+                if s2["k"] == "a" and s2["lhs"] == {"l": op_base(x)} and s2["rv"]["k"] == "use" and s2["rv"]["o"]["k"] in ("copy", "move"):
+                    pp = s2["rv"]["o"]["p"]
+                    if len(pp.get("p", [])) == 1 and pp["p"][0][0] == "idx" and is_array(pp["l"]):
+                        k = _idx_const(f, pp["p"][0][1])
+                        if k is not None:
+                            out[(k, k + 1)] = {str(y.get("def") or y.get("v")).rsplit("::", 1)[-1]}
+    for cb, t in find_calls(f, "core::cmp::PartialEq::eq"):
+        ts = call_result_tests(f, cb, family="bool")[0]
+        if not (oks and all(requires(f, b, ts) for b in oks)):
+            continue
+        for x, y in ((t["args"][0], t["args"][1]), (t["args"][1], t["args"][0])):
+            r = _sub_range(f, op_base(x), is_array) if op_base(x) is not None else None
+            c = _const_names(f, op_base(y)) if op_base(y) is not None else None
+            if r is not None and c is not None:
+                out[r] = c
+    return out
+
+
 def check(F, rep):
     rep.clause("both directions of the map live behind one mutex and AddrMap::get performs lookup, generate-until-unused and both inserts under one continuously held guard; get is the only writer; entries are never removed; the forward and reverse insert carry the same (key, addr) pair")
-    rep.clause("per mapped type, generate() and TryFrom<Ipv6Addr> use the same prefix / global id / subnet constants, the three subnets are pairwise distinct, and the newtypes are only built by those two functions; SocketAddr classification tries all three mapped kinds before treating an address as plain IP")
+    rep.clause("per mapped type, generate() writes and TryFrom<Ipv6Addr> compares (whole-range equality, required by every Ok return) the same byte ranges 0, 1..6, 6..8 against the same prefix / global id / subnet constants (byte-range tables extracted from both functions, helpers inlined), the three subnets are pairwise distinct, and the newtypes are only built by those two functions; SocketAddr classification tries all three mapped kinds before treating an address as plain IP")
     rep.undecided("quality of the random 64-bit suffix")
     g = get_fn(F, rep, AM + "::get")
     gs = guards(g)
@@ -87,20 +199,16 @@ def check(F, rep):
             rep.missing("table_agreement", "%s generate/try_from (%d/%d)" % (ty, len(gen), len(tf)))
             continue
         rep.fn(gen[0]); rep.fn(tf[0])
-        cg = {c.rsplit("::", 1)[-1] for c in consts_used(gen[0]) if c.startswith(M)}
-        ct = {c.rsplit("::", 1)[-1] for c in consts_used(tf[0]) if c.startswith(M)}
-        want = {"ADDR_PREFIXL", "ADDR_GLOBAL_ID", sub}
-        rep.ob("table_agreement", cg == want and ct == want, ty, "generate uses %s, try_from checks %s (expected %s)" % (sorted(cg), sorted(ct), sorted(want)), "%s|prefix-consts" % ty)
-        # try_from: Ok only under all three comparisons
-        t = tf[0]
+        from ..inline import inlined
+        gi, t = inlined(F, gen[0]), inlined(F, tf[0])
+        want = {(0, 1): {"ADDR_PREFIXL"}, (1, 6): {"ADDR_GLOBAL_ID"}, (6, 8): {sub}}
+        wr, other_w = written_prefix(gi)
+        rep.ob("table_agreement", wr == want and not other_w, ty, "generate writes exactly prefix byte 0, global id bytes 1..6 and this type's subnet bytes 6..8: %s%s" % ({"%d..%d" % k: sorted(v) for k, v in sorted(wr.items())}, "; other writes at %s" % other_w if other_w else ""), "%s|prefix-consts" % ty)
+        # try_from: Ok only under equality of the same byte ranges with the same constants
         oks = [b for b, i, rv in returns_of(t) if i is not None and rv["k"] == "agg" and rv.get("variant") == "Ok"]
-        cmps = []
-        for cb, s, ts in cmp_tests(t, ops=("Eq",)):
-            cmps.append(ts)
-        for cb, ct_ in find_calls(t, "core::cmp::PartialEq::eq"):
-            cmps.append(call_result_tests(t, cb, family="bool")[0])
-        okc = sum(1 for ts in cmps if oks and all(requires(t, b, ts) for b in oks))
-        rep.ob("table_agreement", okc >= 3, ty, "try_from returns Ok only under all three prefix comparisons (%d guarding comparisons)" % okc, "%s|try_from-guards" % ty)
+        ck = checked_prefix(t, oks)
+        rep.ob("table_agreement", ck == wr and bool(oks), ty, "try_from returns Ok only when the same byte ranges equal the same constants that generate writes (whole-range equality): checked %s, written %s" % ({"%d..%d" % k: sorted(v) for k, v in sorted(ck.items())}, {"%d..%d" % k: sorted(v) for k, v in sorted(wr.items())}), "%s|try_from-guards" % ty)
+        okv = [copy_sources(t, op_base(rv["ops"][0])) for b, i, rv in returns_of(t) if i is not None and rv["k"] == "agg" and rv.get("variant") == "Ok" and op_base(rv["ops"][0]) is not None]
         sites = [x for x in ctor_sites(F, M + ty, crates=["iroh"]) if not x[0].derived]
         for f, b, i, rv in sites:
             rep.ob("ctor_sites", f in (gen[0], tf[0]), site(f, b), "%s constructed in %s" % (ty, source_fn(F, f)), skey(F, f, "ctor-" + ty))
